@@ -38,6 +38,7 @@ func TestMain(m *testing.M) {
 type Case struct {
 	IDs      []uint32 `json:"ids"`       // chain root .. target (len = depth+1), pairwise distinct
 	Seeds    []byte   `json:"seeds"`     // key seed per agent
+	IVEdge   []int    `json:"iv_edge,omitempty"` // per agent: class of demonref.IVEdgeNames (counter block about to carry); missing = 0
 	Side     bool     `json:"side"`      // a sibling of the target hangs off the target's parent
 	SideFirst bool    `json:"side_first"` // the sibling connected before the target (it precedes it in the parent's link list)
 	SideID   uint32   `json:"side_id"`
@@ -88,6 +89,12 @@ func gen(t *rapid.T) Case {
 			seen[id] = true
 			c.IDs = append(c.IDs, id)
 			c.Seeds = append(c.Seeds, byte(len(c.IDs)*17)+rapid.Byte().Draw(t, "seed")%16)
+			// one agent in four has an IV whose counter block is about to carry (layers are longer than one block)
+			e := 0
+			if rapid.IntRange(0, 3).Draw(t, "ivedge?") == 0 {
+				e = rapid.IntRange(1, len(demonref.IVEdgeNames)-1).Draw(t, "ivedge")
+			}
+			c.IVEdge = append(c.IVEdge, e)
 		}
 	}
 	c.Side = rapid.Bool().Draw(t, "side")
@@ -209,6 +216,9 @@ func check(c Case) *core.Violation {
 	var chain []sess
 	for i, id := range c.IDs {
 		k, iv := keyFrom(c.Seeds[i])
+		if i < len(c.IVEdge) {
+			iv = demonref.ApplyIVEdge(iv, c.IVEdge[i], c.Seeds[i])
+		}
 		chain = append(chain, sess{ID: id, Key: k, IV: iv, Meta: agx.DefaultMeta(id)})
 	}
 	depth := len(chain) - 1
@@ -543,6 +553,17 @@ func classify(c Case) core.Class {
 	if big {
 		cl.Labels = append(cl.Labels, "id>=2^31")
 	}
+	for i, e := range c.IVEdge {
+		if e > 0 && e < len(demonref.IVEdgeNames) {
+			where := "intermediate-hop"
+			if i == 0 {
+				where = "first-hop"
+			} else if i == depth {
+				where = "target"
+			}
+			cl.Labels = append(cl.Labels, "iv-about-to-carry:"+where, "iv:"+demonref.IVEdgeNames[e])
+		}
+	}
 	if bl, fp := betweenLabels(c); fp != "none" {
 		cl.Labels = append(cl.Labels, bl...)
 		cl.Fingerprint += "|btw=" + fp
@@ -553,7 +574,7 @@ func classify(c Case) core.Class {
 func TestC08(t *testing.T) {
 	core.Run(t, core.Spec[Case]{
 		Property: "C08", Sub: "a",
-		Rule: "pivot chains of depth 1-5 (optional sibling of the target) built through real, relayed SMB_CONNECT callbacks; ids from {1,2,2^31-1,2^31,2^32-1,random}, distinct keys; two operator tasks (sleep, fs/cd) for the last agent are unwrapped from the first hop's check-in reply layer by layer with each hop's own key and SmbRecv's frame rules; then a callback of the last agent is wrapped once per ancestor in scenarios ok / id never issued / id outstanding only for the parent / encrypted under the parent's key / sent by the sibling with the target's id / one frame mixing callbacks with never-issued ids and the outstanding one in either order; then (2 of 3 cases) one agent of the chain - the target or one of its ancestors - reconnects under a new directly connected agent (in half of these the old parent afterwards still hands in a frame it had read from the moved agent: the link must stay as the reconnect set it; in some a hop between the new first hop and the target answers a CHECKIN task with a new session key, which its layer must then be sealed with) and a third task for the last agent must be found, correctly wrapped for the new chain, at the new first hop and not at the old one. Operator commands between issue and poll (more than half of the cases carry in-between commands, a third extra tasks; about 1 in 5 a `task clear` on an intermediate hop while a descendant's task is pending): together with the target's two tasks, further tasks (sleep, fs/cd) are queued for several agents of the tree - first hop, intermediate hops, target, sibling - before, between and after the target's; then, before the first hop polls, a generated sequence of 1-3 operator commands runs through the real paths (Session/Input with CommandID Teamserver: `task::clear` or `task::list` on the first hop / an intermediate hop / the target / the sibling; a further task for any agent; Session/MarkAsDead marking an agent alive or the sibling dead); every task of the first hop's reply is followed down the tree (each layer must name a child of the hop that opened it) and every task issued for an agent whose queue the operator did not clear (clearing the first hop's queue releases everything waiting there; clearing a pivot agent's queue releases only that agent's own tasks) must arrive exactly once, in the order of issue, under that agent's key with the issued arguments - in particular a descendant's pending task survives `task clear` on a hop above it; nothing unissued or repeated may arrive. Non-trivial: depth >= 2 or an id >= 2^31; distinct = (depth, big id, sibling, scenario)",
+		Rule: "pivot chains of depth 1-5 (optional sibling of the target) built through real, relayed SMB_CONNECT callbacks; ids from {1,2,2^31-1,2^31,2^32-1,random}, distinct keys, one agent in four with an IV whose counter block is about to carry (all 0xff, low 64 / 32 bits 0xff, ...fffffffe, ...fffffff0-ff, carry through 15 bytes: the Demon counts all 16 bytes as one big-endian counter); two operator tasks (sleep, fs/cd) for the last agent are unwrapped from the first hop's check-in reply layer by layer with each hop's own key and SmbRecv's frame rules; then a callback of the last agent is wrapped once per ancestor in scenarios ok / id never issued / id outstanding only for the parent / encrypted under the parent's key / sent by the sibling with the target's id / one frame mixing callbacks with never-issued ids and the outstanding one in either order; then (2 of 3 cases) one agent of the chain - the target or one of its ancestors - reconnects under a new directly connected agent (in half of these the old parent afterwards still hands in a frame it had read from the moved agent: the link must stay as the reconnect set it; in some a hop between the new first hop and the target answers a CHECKIN task with a new session key, which its layer must then be sealed with) and a third task for the last agent must be found, correctly wrapped for the new chain, at the new first hop and not at the old one. Operator commands between issue and poll (more than half of the cases carry in-between commands, a third extra tasks; about 1 in 5 a `task clear` on an intermediate hop while a descendant's task is pending): together with the target's two tasks, further tasks (sleep, fs/cd) are queued for several agents of the tree - first hop, intermediate hops, target, sibling - before, between and after the target's; then, before the first hop polls, a generated sequence of 1-3 operator commands runs through the real paths (Session/Input with CommandID Teamserver: `task::clear` or `task::list` on the first hop / an intermediate hop / the target / the sibling; a further task for any agent; Session/MarkAsDead marking an agent alive or the sibling dead); every task of the first hop's reply is followed down the tree (each layer must name a child of the hop that opened it) and every task issued for an agent whose queue the operator did not clear (clearing the first hop's queue releases everything waiting there; clearing a pivot agent's queue releases only that agent's own tasks) must arrive exactly once, in the order of issue, under that agent's key with the issued arguments - in particular a descendant's pending task survives `task clear` on a hop above it; nothing unissued or repeated may arrive. Non-trivial: depth >= 2 or an id >= 2^31; distinct = (depth, big id, sibling, scenario)",
 		Gen:   gen, Check: check, Classify: classify,
 		Assumptions: []string{"the Demon's pipe framing and PivotPush wrapping are transcribed from TransportSmb.c / Pivot.c / Command.c"},
 	})
